@@ -14,4 +14,6 @@ var Registry = map[string]func(args []string){
 	"client":   Client,
 	"path":     PathEngine,
 	"readdir":  ReaddirEngine,
+	"ramfs":    RamEngine,
+	"ramconc":  RamConc,
 }
